@@ -12,6 +12,7 @@ for id in $IDS; do
     S=$(mktemp -d /var/tmp/vmut.XXXXXX)
     cp -r /repo/. "$S/" && rm -rf "$S/.git"
     if ! (cd "$S" && patch -p1 -s < "/verif/$patch"); then echo "SELFTEST $id $(basename $patch): PATCH DOES NOT APPLY"; fail=$((fail+1)); rm -rf "$S"; continue; fi
+    if ! (cd "$S" && $VGO build ./... >/dev/null 2>&1); then echo "SELFTEST $id $(basename $patch): DOES NOT BUILD"; fail=$((fail+1)); rm -rf "$S"; continue; fi
     base="-"
     if [ "${SELFTEST_BASELINE:-0}" = 1 ]; then
       if (cd "$S" && $VGO test -vet=off -count=1 ./... >/dev/null 2>&1); then base="suite-passes"; else base="SUITE-FAILS"; fi
